@@ -54,6 +54,8 @@ var Atoms = []string{
 	"C:", "c|", "C|", "C|/", "/C:", "/c|/", "C:\\", "Z:", "/a/C:/..", "/C:/..", "/a/C|/../",
 	// ... and the neighbours of the ASCII letters, which are not drive letters ('@' 'A'..'Z' '[' ... '`' 'a'..'z' '{')
 	"@:", "[:", "_:", "`|", "{:", "^:", "]|", "/_:/..", "/[:/..", "/@|/../", "/{:/..", "1:", "/1|/..",
+	// ... and letters that are not ASCII (a drive letter is an ASCII alpha)
+	"\u00e9:", "\u00c9|", "/\u00e9:/..", "\u0131:", "\uff23:",
 	// percent escapes
 	"%", "%4", "%41", "%00", "%zz", "%2", "%25", "%2541", "%g1", "%C3%A9", "%FF", "%E2%82", "%20", "%09", "%0A", "%7f", "%80",
 	"%5B", "%5D", "%3A", "%2F", "%40", "%23", "%3F", "%3a", "%2580", "%25FF", "%25C3", "%25c3%25a9", "%252580",
@@ -245,7 +247,7 @@ var refShapes = []string{"./d:/..", "a/C:/../x", "/a/b/c:/..", "\u212aa:x", "f\u
 	"p", "p/q", "./", "./p", "../", "..", "../..", "../../x", ".", "./.", "a/../b", "%2e%2e/x", ".%2E/", "C|/x", "C:", "c:/x", "/C|/x", "/c:", "C|", "C|\\x", "//C|/x", "///x", "////x",
 	"?#", "#?", " ", "\t", "x y", ";p", "a:", ":a", "1:", "/..", "/../..", "/./", "//h?q", "//h#f", "//@", "//:80", "//[::1]", "//1.2.3.4", "//h\\p", "\\", "\\p", "/\\", "\\\\", "//h:", "?\xff", "#\xff", "p\x00",
 	"file:", "file:p", "file:/p", "file://h/p", "file:C|/x", "file:..", "file:?q", "file:#f", "file:\\\\h",
-	"_:/..", "/^:/../x", "/[:/..", "/`|/..", "/{:/../y", "/@:/..", "/1:/.."}
+	"_:/..", "/^:/../x", "/[:/..", "/`|/..", "/{:/../y", "/@:/..", "/1:/..", "\u00e9:/x", "/\u00c9|/..", "\uff23:", "\u0131|/y"}
 
 // Ref draws a reference; baseScheme (may be "") is used for "same scheme" shapes.
 func Ref(t *rapid.T, label string, baseScheme string) string {
